@@ -14,6 +14,7 @@ package scrypt
 //@ requires 0 <= n && n <= len(src) && n <= len(dst)
 //@ modifies dst[0:n]
 //@ loop 1 invariant -1 <= rangeindex && rangeindex < n
+//@ loop 1 invariant sameoutside(dst[0:n])
 
 //@ func salsaXOR
 //@ props C16
